@@ -79,6 +79,42 @@ def getters_of(b, calls):
     return g
 
 
+def numeric_kind_rules(r, ctx, f):
+    """integer recognisers accept (and convert) all four integer event kinds, the float recogniser all five"""
+    INTK = {"Int", "UInt", "BigInt", "BigUint"}
+    recs = {"I32Recognizer": INTK, "I64Recognizer": INTK, "U32Recognizer": INTK, "U64Recognizer": INTK, "UsizeRecognizer": INTK, "NonZeroUsizeRecognizer": INTK,
+            "BigIntRecognizer": INTK, "BigUintRecognizer": INTK, "F64Recognizer": INTK | {"Float"}}
+    for nm, want in sorted(recs.items()):
+        b = ctx.saw(f.fn(name="feed_event", self_adt="primitive::" + nm))
+        sw = [si for si in b.switches_on(lambda p, si: True) if si.get("kind") == "disc" and (si.get("adt") or "").endswith("event::NumericValue")]
+        if not sw:
+            r.bad("%s/numeric-kinds" % nm, where(b), "no match on the numeric kind")
+            continue
+        ve = b.variant_edges(sw[0]["block"])
+        err = {c.block for c in b.calls if c.name == "kind_error"}
+        acc = set()
+        for k, t in ve.items():
+            if t == sw[0]["otherwise"]:
+                # the otherwise edge: accepted only if it does not lead to kind_error
+                if t not in err and not any(b.reaches(t, {e}) for e in err):
+                    acc.add(k)
+            elif t not in err and not any(b.dominates(t, e) for e in err):
+                acc.add(k)
+        r.check(acc == want, "%s/numeric-kinds" % nm, where(b), "%s accepts %s" % (nm, sorted(acc)),
+                "%s accepts %s but not %s: the Recon parser, the model bridge and the MessagePack reader deliver the same number as different kinds, so the reading paths disagree on whether it is accepted" % (nm, sorted(acc), sorted(want - acc)))
+        # accepting a kind means converting its value: an arm that never looks at the payload answers the same for every number of that kind
+        # (the tokenizer delivers i64::MIN as BigInt, the MessagePack reader delivers small values as whatever the writer chose)
+        import json as _json
+        for k in sorted(acc & want):
+            t = ve.get(k)
+            if t is None or t == sw[0]["otherwise"]:
+                continue
+            region = b.reachable_from([t])
+            used = any('["d", "%s"' % k in _json.dumps(b.blocks[i]) for i in region)
+            r.check(used, "%s/%s/value-converted" % (nm, k), where(b), "the %s arm reads the number it was given" % k,
+                    "%s has an arm for %s numbers but never reads the value: every such number gets the same answer, although the same number is delivered as Int/UInt/BigInt/BigUint depending on the reading path (the Recon tokenizer produces BigInt for i64::MIN)" % (nm, k))
+
+
 def run(ctx):
     mp = ctx.crate(MP)
     f = ctx.crate(F)
@@ -323,27 +359,7 @@ def run(ctx):
                 "a 16/32-bit body header is a map body exactly when the marker is Map16/Map32", "map/array distinction in the body: %s" % eqs)
 
     with ctx.rule("C16.R5", "T5", "integer recognisers accept all four integer event kinds, the float recogniser all five", floor=9) as r:
-        INTK = {"Int", "UInt", "BigInt", "BigUint"}
-        recs = {"I32Recognizer": INTK, "I64Recognizer": INTK, "U32Recognizer": INTK, "U64Recognizer": INTK, "UsizeRecognizer": INTK, "NonZeroUsizeRecognizer": INTK,
-                "BigIntRecognizer": INTK, "BigUintRecognizer": INTK, "F64Recognizer": INTK | {"Float"}}
-        for nm, want in sorted(recs.items()):
-            b = ctx.saw(f.fn(name="feed_event", self_adt="primitive::" + nm))
-            sw = [si for si in b.switches_on(lambda p, si: True) if si.get("kind") == "disc" and (si.get("adt") or "").endswith("event::NumericValue")]
-            if not sw:
-                r.bad("%s/numeric-kinds" % nm, where(b), "no match on the numeric kind")
-                continue
-            ve = b.variant_edges(sw[0]["block"])
-            err = {c.block for c in b.calls if c.name == "kind_error"}
-            acc = set()
-            for k, t in ve.items():
-                if t == sw[0]["otherwise"]:
-                    # the otherwise edge: accepted only if it does not lead to kind_error
-                    if t not in err and not any(b.reaches(t, {e}) for e in err):
-                        acc.add(k)
-                elif t not in err and not any(b.dominates(t, e) for e in err):
-                    acc.add(k)
-            r.check(acc == want, "%s/numeric-kinds" % nm, where(b), "%s accepts %s" % (nm, sorted(acc)),
-                    "%s accepts %s but not %s: the Recon parser, the model bridge and the MessagePack reader deliver the same number as different kinds, so the reading paths disagree on whether it is accepted" % (nm, sorted(acc), sorted(want - acc)))
+        numeric_kind_rules(r, ctx, f)
 
     with ctx.rule("C16.R6", "T5", "every PrimitiveWriter maps each method to the same kind; Value::write_with composed with the model builder is the identity on kinds", floor=40) as r:
         BR = {"write_extant": ("Extant", None), "write_i32": ("Number", "Int"), "write_i64": ("Number", "Int"), "write_u32": ("Number", "UInt"), "write_u64": ("Number", "UInt"),
